@@ -15,8 +15,9 @@
   the parent (and by every other view of the same bytes), and two operands that are views of
   the same array alias exactly as in numpy.
 
-  The methods are transcribed statement by statement, including the parts of the code that
-  are wrong (they are marked `DEFECT`).  The theorems about this model are in
+  The methods are transcribed statement by statement (state of /repo after the repairs of
+  2026-09-26, commit 5aa1222), including the parts of the code that still deviate from numpy
+  (they are marked `DEFECT`).  The theorems about this model are in
   `HealSparse/Props/C05.lean`.
 -/
 namespace HS
@@ -115,6 +116,7 @@ def init (h : Heap) (size : Option Int) (data : Option (List Byte)) (start stop 
     pure (h ++ d.toArray, p)
   | none =>
     let size := size.getD 0
+    if size < 0 then throw .value               -- "Size must not be negative."
     if stop.isSome then throw .value
     let offsetValue : Int := if (size + s) % 8 == 0 then 0 else 1
     let dataLen : Int := (size + s) / 8 + offsetValue
@@ -142,10 +144,7 @@ def toBools (h : Heap) (p : PBA) : List Bool :=
 
 /-- `self[lo:hi:step]`; `none` = omitted.  All arithmetic is Python integer arithmetic
     (`//` and `%` by 8 are floor division / non-negative remainder = Lean `Int` `/`, `%`).
-    DEFECT (line 263): `_stop < start_index` compares a length with a bit offset, so a slice of
-    an unaligned view that ends before the bit offset of its first element is rejected.
-    DEFECT: a reversed slice (`hi < lo`) is not normalised to the empty slice; it is either
-    rejected or yields an object whose `size` is negative. -/
+    A stop before the start gives the empty slice (`_stop = max(_stop, key_start)`). -/
 def slice (p : PBA) (lo hi : Option Int) (step : Option Int := none) : Except PErr PBA := do
   let size := p.size
   -- key.start
@@ -159,9 +158,10 @@ def slice (p : PBA) (lo hi : Option Int) (step : Option Int := none) : Except PE
   -- key.stop
   let (dataStop, stopIndex) ← (match hi with
     | some ke =>
-      let stop' := if ke < 0 then ke + size else ke
-      if stop' > size || stop' < startIndex then (.error .value : Except PErr (Int × Int))
+      let stop0 := if ke < 0 then ke + size else ke
+      if stop0 > size then (.error .value : Except PErr (Int × Int))
       else
+        let stop' := max stop0 keyStart
         let sz := stop' - keyStart
         let offsetValue : Int := if (sz + startIndex) % 8 == 0 then 0 else 1
         let dataStop := (stop' + p.start) / 8 + offsetValue
@@ -252,6 +252,33 @@ def applyParts (h : Heap) (off len : Nat) (f : FML)
   | some (a, b) => mapRange h2 (off + a) (off + b) (midF h2)
   | none => h2
 
+/-! ### `copy` (lines 197-219) -/
+
+def setLast (l : List Byte) (b : Byte) : List Byte := l.set (l.length - 1) b
+
+/-- `new_buffer[0] = packbits(first)[0]` and `new_buffer[-1] = packbits(last)[0]` (when present) -/
+def maskedBuffer (f : FML) (nb : List Byte) : List Byte :=
+  let nb := match f.first.arr with
+    | some a => nb.set 0 (pack a)
+    | none => nb
+  match f.last.arr with
+  | some a => setLast nb (pack a)
+  | none => nb
+
+def copy (h : Heap) (p : PBA) : Except PErr (Heap × PBA) := do
+  let f ← p.fml h true
+  let nb := maskedBuffer f (p.data h)           -- new_buffer = self._data.copy(); …
+  let q ← initData h.size nb.length true (some p.start) (some p.stop)
+  pure (h ++ nb.toArray, q)
+
+/-- `np.shares_memory(p._data, q._data)`: both non-empty and the byte ranges intersect
+    (distinct numpy buffers occupy disjoint parts of the heap) -/
+def sharesMemory (p q : PBA) : Bool :=
+  decide (0 < p.len) && decide (0 < q.len) && decide (p.off < q.off + q.len) && decide (q.off < p.off + p.len)
+
+/-- a temporary buffer at the end of the heap is released (Python drops the object) -/
+def release (h : Heap) (n : Nat) : Heap := h.extract 0 n
+
 /-! ### in-place logic (lines 396-458, 544-633) -/
 
 inductive Op where
@@ -300,11 +327,20 @@ def combineParts (h : Heap) (p : PBA) (f g : FML) (rdo : Heap → Nat → Byte)
   pure (applyParts h p.off p.len f (fun t x => bitF x (of.getD t false)) (fun t x => bitF x (ol.getD t false))
     (fun hc i x => byteF x (rdo hc (a' + i))))
 
-/-- `_operation_helper_pba(operation, other)` -/
-def opPBA (h : Heap) (p q : PBA) (op : Op) : Except PErr Heap := do
+/-- the body of `_operation_helper_pba` after the aliasing test -/
+def opPBACore (h : Heap) (p q : PBA) (op : Op) : Except PErr Heap := do
   let f ← p.fml h false
   let g ← q.fml h false
   combineParts h p f g (fun hc i => rdB hc (q.off + i)) op.bool op.byte
+
+/-- `_operation_helper_pba(operation, other)`: overlapping views of one buffer are combined
+    through a temporary copy of the operand (`other = other.copy()`). -/
+def opPBA (h : Heap) (p q : PBA) (op : Op) : Except PErr Heap := do
+  if sharesMemory p q then
+    let (h1, qc) ← copy h q
+    let h2 ← opPBACore h1 p qc op
+    pure (release h2 h.size)
+  else opPBACore h p q op
 
 /-- `self &= other`, `self |= other`, `self ^= other` with a bool. -/
 def iopBool (h : Heap) (p : PBA) (op : Op) (other : Bool) : Except PErr Heap := opBool h p op other
@@ -318,24 +354,7 @@ def iopPBA (h : Heap) (p q : PBA) (op : Op) : Except PErr Heap := do
   if q.start != p.start || q.stop != q.stop then throw .value
   opPBA h p q op
 
-/-! ### `copy` (lines 197-219) -/
-
-def setLast (l : List Byte) (b : Byte) : List Byte := l.set (l.length - 1) b
-
-/-- `new_buffer[0] = packbits(first)[0]` and `new_buffer[-1] = packbits(last)[0]` (when present) -/
-def maskedBuffer (f : FML) (nb : List Byte) : List Byte :=
-  let nb := match f.first.arr with
-    | some a => nb.set 0 (pack a)
-    | none => nb
-  match f.last.arr with
-  | some a => setLast nb (pack a)
-  | none => nb
-
-def copy (h : Heap) (p : PBA) : Except PErr (Heap × PBA) := do
-  let f ← p.fml h true
-  let nb := maskedBuffer f (p.data h)           -- new_buffer = self._data.copy(); …
-  let q ← initData h.size nb.length true (some p.start) (some p.stop)
-  pure (h ++ nb.toArray, q)
+/-! ### the copying forms -/
 
 /-- `self & other`, `self | other`, `self ^ other` with a bool: `new = self.copy(); new op= other`. -/
 def bopBool (h : Heap) (p : PBA) (op : Op) (other : Bool) : Except PErr (Heap × PBA) := do
@@ -405,18 +424,34 @@ def setIdxBool (h : Heap) (p : PBA) (idx : List Int) (v : Bool) (asList : Bool :
   if idx.isEmpty then .ok h else
   if v then setBits h p idx else clearBits h p idx
 
-/-- `self[idx] = values` with a boolean array: set the True ones, then clear the False ones.
-    Returns the heap even when an exception is raised: the two range checks are separate, so
-    the True entries have been set already when the False entries are rejected.
-    DEFECT: with an index that occurs with both values, False wins (numpy: the last wins).
-    DEFECT: `len(idx) = 0` returns before the length check. -/
+/-- `np.unique`: the sorted distinct values -/
+def insSorted (x : Int) : List Int → List Int
+  | [] => [x]
+  | y :: ys => if x < y then x :: y :: ys else if x = y then y :: ys else y :: insSorted x ys
+
+def sortedUnique (l : List Int) : List Int := l.foldr insSorted []
+
+/-- the value at the LAST occurrence of index `i` -/
+def lastVal (ivs : List (Int × Bool)) (i : Int) : Bool :=
+  ((ivs.reverse.find? fun iv => iv.1 == i).map (·.2)).getD false
+
+/-- `_, last = np.unique(indices[::-1], return_index=True); keep = len(indices) - 1 - last`:
+    `(indices[keep], value[keep])` = every distinct index (ascending) with its last value -/
+def keepLast (idx : List Int) (vals : List Bool) : List (Int × Bool) :=
+  (sortedUnique idx).map fun i => (i, lastVal (idx.zip vals) i)
+
+/-- `self[idx] = values` with a boolean array: range check up front, then only the last
+    occurrence of every index is kept; set the True ones, clear the False ones.
+    DEFECT (kept): `len(idx) = 0` returns before the length check. -/
 def setIdxArr (h : Heap) (p : PBA) (idx : List Int) (vals : List Bool) (asList : Bool := false) :
     Heap × Option PErr :=
   if asList && idx.isEmpty then (h, some .index) else
   if idx.isEmpty then (h, none) else
   if vals.length != idx.length then (h, some .value) else
-  let t := ((idx.zip vals).filter (·.2)).map (·.1)
-  let f := ((idx.zip vals).filter (!·.2)).map (·.1)
+  if minI idx < 0 || maxI idx ≥ p.size then (h, some .index) else
+  let kp := keepLast idx vals
+  let t := (kp.filter (·.2)).map (·.1)
+  let f := (kp.filter (!·.2)).map (·.1)
   match setBits h p t with
   | .error e => (h, some e)
   | .ok h1 =>
@@ -446,15 +481,21 @@ def setSliceArr (h : Heap) (p : PBA) (lo hi : Option Int) (vals : List Bool) : E
   let g ← Packed.fml (fun i => vb.getD i 0) vb.length t.start ((t.start : Int) + vals.length) false
   combineParts h t f g (fun _ i => vb.getD i 0) (fun _ o => o) (fun _ o => o)
 
-/-- value = `_PackedBoolArray` `q` (possibly a view of the same array). -/
+/-- value = `_PackedBoolArray` `q`; a view overlapping the target is copied first. -/
 def setSlicePBA (h : Heap) (p : PBA) (lo hi : Option Int) (q : PBA) : Except PErr Heap := do
   let t ← slice p lo hi
   let n ← t.pyLen
   if n == 0 then return h
   let f ← t.fml h false
   if (t.start : Int) != q.start || t.stop != q.stop then throw .value
-  let g ← q.fml h false
-  combineParts h t f g (fun hc i => rdB hc (q.off + i)) (fun _ o => o) (fun _ o => o)
+  if sharesMemory t q then
+    let (h1, qc) ← copy h q
+    let g ← qc.fml h1 false
+    let h2 ← combineParts h1 t f g (fun hc i => rdB hc (qc.off + i)) (fun _ o => o) (fun _ o => o)
+    pure (release h2 h.size)
+  else
+    let g ← q.fml h false
+    combineParts h t f g (fun hc i => rdB hc (q.off + i)) (fun _ o => o) (fun _ o => o)
 
 /-! ### `sum`, `_bit_count` (lines 155-187, 676-688) -/
 
@@ -495,8 +536,7 @@ def sumAxis (temp : List Nat) (shape : List Nat) (k : Nat) : List Nat :=
     ((List.range A).map fun a => temp.getD ((o * A + a) * inner + i) 0).sum
 
 /-- `self.sum(shape=shape, axis=axis)`; result = (shape of the result, flat values).
-    DEFECT (numpy parity): the counts are per byte, so for an axis that is not the last one the
-    result still has the last axis divided by 8 (`np.sum(arr.reshape(shape), axis)` has not). -/
+    Only `axis=None` and the last axis are supported (the counts are per byte). -/
 def sumShaped (h : Heap) (p : PBA) (shape : List Nat) (axis : Option Int) :
     Except PErr (List Nat × List Nat) := do
   if p.start != 0 || p.stop % 8 != 0 then throw .value
@@ -507,38 +547,49 @@ def sumShaped (h : Heap) (p : PBA) (shape : List Nat) (axis : Option Int) :
   match shape.getLast? with
   | none => throw .index
   | some l => if l % 8 != 0 then throw .value
-  if axis == some 0 then throw .notImpl
+  match axis with
+  | some a => if a != (shape.length : Int) - 1 then throw .notImpl
+  | none => pure ()
   let newShape := shape.set (shape.length - 1) (shape.getLast?.getD 0 / 8)
   let temp := (p.data h).map fun b => (bitCount b).toNat
   if prodL newShape != temp.length then throw .value    -- reshape
   match axis with
   | none => pure ([], [temp.sum])
-  | some a =>
-    let k : Int := if a < 0 then a + newShape.length else a
-    if k < 0 then throw .axis
-    pure (newShape.eraseIdx k.toNat, sumAxis temp newShape k.toNat)
+  | some a => pure (newShape.eraseIdx a.toNat, sumAxis temp newShape a.toNat)
 
 /-! ### `resize`, `data_array` (lines 131-153, 189-195) -/
 
-/-- `self.resize(newsize)` (lines 131-158, as of /repo commit f0f9369).
-    A buffer that does not own its memory (a slice view, a buffer read from a file) is first
-    replaced by a copy (`self._data = self._data.copy()`): the object is DETACHED from its parent
-    and the bits of its last byte beyond `stop` — the parent's bits — become its padding.
-    Then `self._data.resize(nd, refcheck=False)`: a no-op when the byte count is unchanged,
-    otherwise a reallocation (modelled as a move to the end of the heap with zero fill; older
-    views of an owning buffer keep the stale bytes — in numpy they dangle).  Finally
-    `_stop_index` is advanced: the former padding bits become elements (they are zero for
-    arrays made by `size=`, `from_boolean_array`, `copy`; not for views or dirty user buffers). -/
+/-- `np.uint8((1 << sm) - 1)` -/
+def lowMask (sm : Nat) : Byte := BitVec.ofNat 8 ((1 <<< sm) - 1)
+
+/-- `self._data.resize(nd, refcheck=False); self._stop_index = newsize + start`:
+    numpy's `resize` is a no-op when the byte count does not change (also on a view), fails on a
+    view otherwise (`_stop_index` is then left alone), and reallocates an owning buffer
+    (modelled as a move to the end of the heap with zero fill; older views of it keep the stale
+    bytes — in numpy they dangle). -/
+def growBuffer (h : Heap) (p : PBA) (nd : Nat) (newstop : Int) : (Heap × PBA) × Option PErr :=
+  if nd == p.len then ((h, { p with stop := newstop }), none)
+  else if !p.own then ((h, p), some .value)
+  else
+    let bytes := ((p.data h).take nd) ++ List.replicate (nd - p.len) (0 : Byte)
+    ((h ++ bytes.toArray, { p with off := h.size, len := nd, stop := newstop }), none)
+
+/-- `self.resize(newsize)` (lines 133-159).  Before the buffer is resized the padding bits of
+    the last byte are cleared, so the new elements are False whatever the padding held.
+    DEFECT (kept): on a slice view this clears the PARENT's bits that follow the view inside
+    the view's last byte — also when the buffer resize then raises. -/
 def resize (h : Heap) (p : PBA) (newsize : Int) : (Heap × PBA) × Option PErr :=
   if newsize < p.size then ((h, p), some .value)
   else if newsize == p.size then ((h, p), none)
   else
     let nd0 := (newsize + p.start) / 8
     let nd := (if (newsize + p.start) % 8 != 0 then nd0 + 1 else nd0).toNat
-    if p.own && nd == p.len then ((h, { p with stop := newsize + p.start }), none)
-    else
-      let bytes := ((p.data h).take nd) ++ List.replicate (nd - p.len) (0 : Byte)
-      ((h ++ bytes.toArray, { p with off := h.size, len := nd, stop := newsize + p.start, own := true }), none)
+    if p.stop % 8 != 0 then
+      if p.len == 0 then ((h, p), some .index)          -- self._data[-1] of an empty buffer
+      else
+        let last := p.off + p.len - 1
+        growBuffer (wr h last (rdB h last &&& lowMask (p.stop % 8).toNat)) p nd (newsize + p.start)
+    else growBuffer h p nd (newsize + p.start)
 
 /-- `self.data_array` -/
 def dataArray (h : Heap) (p : PBA) : Except PErr (List Byte) :=
